@@ -11,7 +11,8 @@ import vlib
 import vctl_common
 
 SPEC = "ControlSession"
-QUICK_MAX = 700
+QUICK_MAX = 450      # plain-submit histories replayed in quick (seeded sample); the other submit variants are always replayed
+QUICK_CRASH = 4      # crash-between-allocation-steps histories in quick (two daemon restarts each)
 
 
 def run(tier, seed, replay=None):
@@ -21,7 +22,14 @@ def run(tier, seed, replay=None):
     quick = tier == "quick"
     cfg = "ControlSession_c19_quick.cfg" if quick or replay else "ControlSession_c19_full.cfg"
     r = vlib.tlc_must_pass(SPEC, cfg, wd, workers=4 if quick else 8, timeout=1500)
-    wit = [] if replay else vlib.witnesses(SPEC, "ControlSession_c19_quick.cfg", ["W19_NoRedaction", "W19_NoRefusal", "W19_NoCaseVariantAccepted"], wd, workers=2)
+    wit = [] if replay else vlib.witnesses(SPEC, "ControlSession_c19_quick.cfg", ["W19_NoLeftBehindSecretListed", "W19_NoRefusal"] if quick else
+                                           ["W19_NoRedaction", "W19_NoRefusal", "W19_NoCaseVariantAccepted", "W19_NoLeftBehindSecretListed"], wd, workers=2)
+    if not replay:
+        # the tempting short-cut "no recorded TLS profile => nothing to redact" must be refuted by the model (left-behind / half-made units)
+        rsc = vlib.tlc(SPEC, "ControlSession_c19_shortcut.cfg", wd, workers=2, timeout=600)
+        if rsc.violated != "NoSecretInReplies":
+            raise vlib.Inconclusive("the redaction short-cut model did not violate NoSecretInReplies: exit %s\n%s" % (rsc.exit, rsc.output[-1200:]))
+        wit.append("shortcut RedactNeedsTLSRecord refuted")
     vctl = vlib.build_harness("vctl")
     rbin = vctl_common.receptor_copy(wd)
     runs = [(cfg, r)]
@@ -35,7 +43,7 @@ def run(tier, seed, replay=None):
         nvec += sum(1 for _ in open(vectors))
         args = ["c19", "-vectors", vectors, "-receptor", rbin, "-work", wd, "-seed", str(seed + 1000 * i)]
         if quick:
-            args += ["-max", str(QUICK_MAX)]  # a seeded sample of the exported histories keeps the quick tier short on a loaded machine
+            args += ["-max", str(QUICK_MAX), "-maxcrash", str(QUICK_CRASH)]  # seeded samples keep the quick tier short on a loaded machine
         if replay:
             args += ["-replay", replay]
         one = vlib.harness_json(vctl, args, wd, timeout=3400, name="harness%d" % i)
@@ -49,20 +57,24 @@ def run(tier, seed, replay=None):
         v.violation(viol["sig"], viol["what"], viol["replay"])
     if res.get("inconclusive") and not v.violations:
         raise vlib.Inconclusive("; ".join(res["inconclusive"][:5]))
-    planned = min(nvec, QUICK_MAX) if quick else nvec
-    if not replay and res["evaluations"] != planned and not v.violations:
+    planned = res["counters"].get("planned", 0)
+    if not replay and not v.violations and (res["evaluations"] != planned or planned < (QUICK_MAX if quick else nvec)):
         raise vlib.Inconclusive("harness replayed %d of %d planned histories (%d exported)" % (res["evaluations"], planned, nvec))
     c = res["counters"]
-    if not replay and not res["violations"] and (c.get("status_replies_verified", 0) == 0 or c.get("refusals_verified", 0) == 0):
+    if not replay and not res["violations"] and (c.get("status_replies_verified", 0) == 0 or c.get("refusals_verified", 0) == 0
+                                                   or c.get("left_behind_units_found", 0) + c.get("left_behind_unit_absent", 0) == 0
+                                                   or c.get("concurrent_lists", 0) == 0):
         raise vlib.Inconclusive("vacuous run: %s" % c)
     cov = {
         "states": r.distinct, "transitions": r.generated, "traces_validated_against_impl": 0,
         "evaluations": res["evaluations"], "distinct_nontrivial": res["distinct"],
-        "rule": ("TLC explores every history (key-class subset x TLS profile named or not x <= MaxOps operations) of ControlSession.tla part c19 (%s) and "
-                 "exports those of <= ExportOps operations; " % cfg) +
-                ("a seeded sample of %d of the %d exported histories is" % (min(nvec, QUICK_MAX), nvec) if quick else "every exported history is") +
+        "rule": ("TLC explores every history (submit variant - accepted with/without ttl, expired at once, client gone before stdin, listed by another session "
+                 "mid-allocation, unknown TLS profile, malformed ttl which leaves the allocated unit behind, crash between the two allocation steps - x "
+                 "key-class subset x TLS profile named or not x <= MaxOps operations) of ControlSession.tla part c19 (%s) and exports those of <= ExportOps "
+                 "operations for the plain submit and fixed short histories for the other variants; " % cfg) +
+                ("a seeded sample (%d plain-submit histories, %d crash histories, all other variants; %d of %d exported) is" % (QUICK_MAX, QUICK_CRASH, planned, nvec) if quick else "every exported history is") +
                 " replayed on the real daemon (every 4th one against a reachable node, plain or TLS, the others against an unreachable node so that replies "
-                "are deterministic), histories with the same restart positions share the daemon restarts; distinct = distinct (key classes, tls, operations, reachable)",
+                "are deterministic) while another session keeps listing the units during all submissions, histories with the same restart positions share the daemon restarts; distinct = distinct (key classes, tls, operations, reachable)",
         "samples": (res.get("samples") or [{"note": "run stopped before sampling"}])[:5], "exhaustive": not quick, "histories": nvec,
         "counters": c, "witnesses": wit, "notes": res.get("notes") or [],
         "tlc": {"spec": "ControlSession.tla", "cfg": cfg, "generated": r.generated, "distinct": r.distinct, "wall_s": round(r.wall, 1)},
